@@ -440,6 +440,39 @@ theorem removeFire_cases (s : Reg) (n : Name) :
           exact ⟨hu, by simp [this, e]⟩
     · simp [hk]
 
+def renameSourceR (s : Reg) (old new : Name) (si : SourceInfo) : Reg :=
+  { (addUsage (removeUsageT (addUsage? (removeUsageO s .pattern si.pat (old, .source)) .pattern si.pat (new, .source))
+      .node si.node (old, .source)) .node si.node (new, .source)) with
+    sources := AL.set (AL.del s.sources old) new si }
+
+theorem renameSource_cases (s : Reg) (old new : Name) :
+    renameSource repaired s old new = (s, .error) ∨ renameSource repaired s old new = (s, .ok) ∨
+    (∃ si, AL.get? s.sources old = some si ∧ AL.get? s.sources new = none ∧ new ≠ old ∧
+      renameSource repaired s old new = (renameSourceR s old new si, .ok)) := by
+  unfold renameSource renameSourceR
+  cases h : AL.get? s.sources old with
+  | none => exact Or.inl rfl
+  | some si =>
+    by_cases hne : new = old
+    · exact Or.inr (Or.inl (by simp [hne]))
+    · cases hn : AL.get? s.sources new with
+      | some x => exact Or.inl (by simp [hne, hn])
+      | none => exact Or.inr (Or.inr ⟨si, rfl, rfl, hne, by simp [hne, hn]⟩)
+
+def clearDemandsR (s : Reg) (n : Name) (i : NodeInfo) : Reg :=
+  { s with nodes := AL.set s.nodes n { i with demands := [] } }
+
+theorem clearDemands_cases (s : Reg) (n : Name) :
+    clearDemands s n = (s, .error) ∨
+    (∃ i, AL.get? s.nodes n = some i ∧ i.kind = .junction ∧ clearDemands s n = (clearDemandsR s n i, .ok)) := by
+  unfold clearDemands clearDemandsR
+  cases h : AL.get? s.nodes n with
+  | none => exact Or.inl rfl
+  | some i =>
+    by_cases hk : i.kind = .junction
+    · exact Or.inr ⟨i, rfl, hk, by simp [hk]⟩
+    · simp [hk]
+
 def assignDemandR (s : Reg) (n p : Name) (i : NodeInfo) : Reg :=
   { (addUsage { s with patterns := s.patterns ++ [p] } .pattern p (n, .junction)) with
     nodes := AL.set s.nodes n { i with demands := [(some p, false)] } }
